@@ -45,7 +45,9 @@ Proof.
     + apply get_u_len in E. lia.
     + inversion E; subst. lia.
   - (* Python *) unfold plen_py in H. binv H. pose proof (read_uptoN_len n b) as L. destruct (read_uptoN n b) as [p r'']. inversion H; subst. cbn [snd] in L.
-    apply get_u_len in E. lia.
+    unfold plen_blob in E. binv E. apply get_u_len in E0. destruct (_ =? 255).
+    + apply get_u_len in E. lia.
+    + inversion E; subst. lia.
   - (* Mailbox *) unfold read_upto in H. destruct (Nat.eqb (length (firstn 4 bs)) 4) eqn:E4; [|discriminate].
     binv H. inversion H; subst. apply need_len in E. rewrite skipn_length in E. apply Nat.eqb_eq in E4. rewrite firstn_length in E4. lia.
   - (* Array *)
@@ -117,9 +119,9 @@ Proof.
   - destruct (plen_blob bs) as [[? ?]|e0] eqn:E; cbn [bind] in H.
     + destruct (read_uptoN _ _). destruct (_ =? _); discriminate.
     + apply plen_blob_err in E. congruence.
-  - unfold plen_py in H. destruct (get_u 1 bs) as [[? ?]|e0] eqn:E; cbn [bind] in H.
+  - unfold plen_py in H. destruct (plen_blob bs) as [[? ?]|e0] eqn:E; cbn [bind] in H.
     + destruct (read_uptoN _ _); discriminate.
-    + apply get_u_err in E. congruence.
+    + apply plen_blob_err in E. congruence.
   - destruct (read_upto 4 bs). destruct (Nat.eqb _ _); [|discriminate].
     destruct (need 2 b0) as [[? ?]|e0] eqn:E; cbn [bind] in H; [discriminate|]. apply need_err in E. congruence.
   - (* Array *)
